@@ -151,11 +151,16 @@ func C07Rules(rules []C07Rule, fb string) string {
 }
 
 // C07Render writes the dns section the way a user would.
-func C07Render(c *C07Cfg) string {
+func C07Render(c *C07Cfg) string { return C07RenderUrls(c, C07Urls) }
+
+// C07SwappedUrls: the declarations keep their names and order, the resolvers behind u1/u3 and u2 are exchanged.
+var C07SwappedUrls = map[string]string{"u1": "udp://192.0.2.2:53", "u2": "udp://192.0.2.1:53", "u3": "udp://192.0.2.2:53"}
+
+func C07RenderUrls(c *C07Cfg, urls map[string]string) string {
 	var sb strings.Builder
 	sb.WriteString("global{}\nrouting{ fallback: direct }\ndns {\n  upstream {\n")
 	for _, u := range C07Ups {
-		sb.WriteString("    " + u + ": '" + C07Urls[u] + "'\n")
+		sb.WriteString("    " + u + ": '" + urls[u] + "'\n")
 	}
 	sb.WriteString("  }\n  routing {\n    request {\n" + C07Rules(c.Req, c.ReqFb) + "    }\n    response {\n" + C07Rules(c.Resp, c.RespFb) + "    }\n  }\n}\n")
 	return sb.String()
